@@ -82,17 +82,45 @@ def detect_variant():
             fn = node
     if fn is None:
         raise TranslatorError("GateCompiler._concatenate_pulses not found")
+    first_v = None
     for node in ast.walk(fn):
         if isinstance(node, ast.If) and node.body:
             first = ast.unparse(node.body[0])
             if first.replace(" ", "") == "compiled_tlist[pulse_ind].append([0.0])":
                 test = ast.unparse(node.test)
                 if test == _FIRST_TOL:
-                    return "tol"
-                if test in _FIRST_STRUCT:
-                    return "struct"
-                raise TranslatorError("first-pulse test of _concatenate_pulses not recognised: " + test)
-    raise TranslatorError("first-pulse branch of _concatenate_pulses not found")
+                    first_v = "tol"
+                elif test in _FIRST_STRUCT:
+                    first_v = "struct"
+                else:
+                    raise TranslatorError("first-pulse test of _concatenate_pulses not recognised: " + test)
+    if first_v is None:
+        raise TranslatorError("first-pulse branch of _concatenate_pulses not found")
+    # fixes/C12-2.patch: channels / gate lists without pulse are left empty
+    final = [ast.unparse(n.value) for n in ast.walk(fn)
+             if isinstance(n, ast.Assign) and ast.unparse(n.targets[0]) == "final_time"]
+    ends = [ast.unparse(n.value) for n in ast.walk(fn)
+            if isinstance(n, ast.Assign) and ast.unparse(n.targets[0]) == "end_times"]
+    if final == ["np.max([tlist[-1][-1] for tlist in compiled_tlist])"] and not ends:
+        v = first_v
+    elif final == ["np.max(end_times) if end_times else 0.0"] and ends == ["[tlist[-1][-1] for tlist in compiled_tlist if tlist]"]:
+        v = first_v + " skipzero=1"
+    else:
+        raise TranslatorError(f"_concatenate_pulses: final_time logic not recognised: final_time={final} end_times={ends}")
+    # compile: are instructions of zero duration dropped before scheduling?
+    cf = None
+    for node in ast.walk(tree):
+        if isinstance(node, ast.FunctionDef) and node.name == "compile":
+            cf = node
+    if cf is None:
+        raise TranslatorError("GateCompiler.compile not found")
+    adds = [ast.unparse(n.value) for n in ast.walk(cf)
+            if isinstance(n, ast.AugAssign) and ast.unparse(n.target) == "instruction_list"]
+    if adds == ["instruction"]:
+        return v
+    if adds == ["[ins for ins in instruction if ins.duration != 0]"]:
+        return v + " dropzero=1"
+    raise TranslatorError("compile: how instructions are collected is not recognised: " + "; ".join(adds))
 
 
 # ----------------------------------------------------------------------------------------------
@@ -201,7 +229,8 @@ def run_compile_real(comp, gates, mode):
     perm = [int(i) for i in np.argsort(starts)] if starts is not None else None
     if tl_map is None:
         return "none", None, starts, perm
-    out = [(lab, [float(x) for x in tl_map[lab]], [float(x) for x in np.asarray(cf_map[lab]).ravel()]) for lab in tl_map]
+    out = [(lab, None, None) if tl_map[lab] is None else
+           (lab, [float(x) for x in tl_map[lab]], [float(x) for x in np.asarray(cf_map[lab]).ravel()]) for lab in tl_map]
     return "ok", out, starts, perm
 
 
@@ -291,6 +320,8 @@ def gen_case0(rng, wild):
         for l in labs:
             chan_kind.setdefault(l, kind)
         tl, cf = gen_wave(rng, kind, e)
+        if kind == "scalar" and rng.random() < 0.06:
+            tl = ["s", F(0)]               # zero-duration instruction (e.g. a rotation by angle 0)
         pulses = [[labs[0], cf]]
         for l in labs[1:]:
             if tl[0] == "s":
@@ -336,9 +367,12 @@ def parse_compile_out(o, id2lab):
     if not o.startswith("ok "):
         return "bad", o
     out = []
-    for ch in o[3:].split("!"):
-        lid, tl, cs = ch.split(":")
-        out.append((id2lab[int(lid)], pfl(tl), pfl(cs)))
+    for ch in (o[3:].split("!") if o[3:].strip() else []):
+        f = ch.split(":")
+        if len(f) == 2 and f[1] == "~":
+            out.append((id2lab[int(f[0])], None, None))
+        else:
+            out.append((id2lab[int(f[0])], pfl(f[1]), pfl(f[2])))
     return "ok", out
 
 
@@ -347,6 +381,10 @@ def compare_channels(model, impl, exact=True, scale=1.0):
     if [m[0] for m in model] != [i[0] for i in impl]:
         return f"channel labels/order {[m[0] for m in model]} vs {[i[0] for i in impl]}"
     for (lab, mt, mc), (_l, it, ic) in zip(model, impl):
+        if mt is None or it is None:
+            if not (mt is None and it is None):
+                return f"channel {lab}: model {'empty' if mt is None else 'has pulses'}, impl {'None' if it is None else 'arrays'}"
+            continue
         if len(mt) != len(it) or len(mc) != len(ic):
             return f"channel {lab}: lengths model ({len(mt)},{len(mc)}) impl ({len(it)},{len(ic)})"
         for k, (a, b) in enumerate(zip(it, mt)):
@@ -360,6 +398,8 @@ def compare_channels(model, impl, exact=True, scale=1.0):
     return None
 
 
+CHECK = None
+
 # ----------------------------------------------------------------------------------------------
 # the property itself on the real code (independent of the Lean model)
 def windows_of(case, starts_sorted_instr):
@@ -370,6 +410,8 @@ def windows_of(case, starts_sorted_instr):
             continue
         tl = g["tl"]
         for lab, cf in g["pulses"]:
+            if tl[0] == "s" and F(tl[1]) == 0 and "dropzero" in (CHECK._variant() if CHECK else ""):
+                continue                       # dropped by compile before scheduling
             if tl[0] == "s":
                 w = (F(s), [F(0), F(tl[1])], [F(cf[1])], "discrete")
             elif cf[0] == "s":
@@ -388,7 +430,7 @@ def sep_ok(ws, variant):
     last = F(0)
     for j, (s, t, c, kind) in enumerate(ws):
         step = t[1] - t[0]
-        if variant == "tol" and j > 0 and not (abs(last) >= step * TAU):
+        if variant.startswith("tol") and j > 0 and not (abs(last) >= step * TAU):
             return False
         gap = s - last
         if not (gap == 0 or gap > step * TAU):
@@ -471,8 +513,17 @@ def check_channel(ws, grid, coeff):
     return None
 
 
+def _gate_duration(g):
+    if g["name"] == "IDLE":
+        return F(g["t"])
+    tl = g["tl"]
+    return F(tl[1]) if tl[0] == "s" else F(tl[1][-1])
+
+
 def ordered_instr(case, starts, perm):
     gs = [g for g in case["gates"] if g["name"] != "GLOBALPHASE"]
+    if CHECK is not None and "dropzero" in CHECK._variant():
+        gs = [g for g in gs if _gate_duration(g) != 0]
     if case["mode"]:
         return [(gs[i], starts[i]) for i in perm]
     out, acc = [], F(0)
@@ -518,7 +569,7 @@ def shipped_case(rng):
 def shipped_excluded(case):
     """classes the theorems exclude explicitly (WaveOK): zero-duration instructions, and the cavity-QED swap
     compilers with a sampled shape (array tlist next to scalar coefficients -> Wave.mixed -> TypeError)"""
-    if any(g[0] in ("RX", "RZ", "RY") and g[3] == 0 for g in case["gates"]):
+    if any(g[0] in ("RX", "RZ", "RY") and g[3] == 0 for g in case["gates"]) and "dropzero" not in CHECK._variant():
         return True
     return case["compiler"] == "cavityqed" and case["shape"] != "rectangular" and \
         any(g[0] in ("ISWAP", "SQRTISWAP") for g in case["gates"])
@@ -591,6 +642,8 @@ class C12(PropertyCheck):
         "QipVerif.C12.discrete_channel_is_schedule",
         "QipVerif.C12.continuous_channel_is_schedule",
         "QipVerif.C12.every_channel_points_are_schedule",
+        "QipVerif.C12.repaired_concatenate_agrees",
+        "QipVerif.C12.idle_only_counterexample",
         "QipVerif.C12.scale_counterexample",
         "QipVerif.C12.gap_counterexample",
     ]
@@ -662,7 +715,8 @@ class C12(PropertyCheck):
 
     def _compare_synth(self, ctx, res, case, tags):
         st, payload, starts, perm = run_compile_impl(case)
-        n_instr = sum(1 for g in case["gates"] if g["name"] != "GLOBALPHASE")
+        n_instr = sum(1 for g in case["gates"] if g["name"] != "GLOBALPHASE"
+                      and not ("dropzero" in self._variant() and _gate_duration(g) == 0))
         if n_instr == 0:
             res.case(case, nontrivial=False, tags=list(tags) + ["no-instruction"])
             if st != "none":
@@ -751,7 +805,8 @@ class C12(PropertyCheck):
             tl, cf = GateCompiler(1)._concatenate_pulses(pi, None, len(pi))
         except Exception as e:
             return "err", classify_exc(e)
-        return "ok", [(i, [float(x) for x in tl[i]], [float(x) for x in np.asarray(cf[i]).ravel()]) for i in range(len(pi))]
+        return "ok", [(i, None, None) if tl[i] is None else
+                      (i, [float(x) for x in tl[i]], [float(x) for x in np.asarray(cf[i]).ravel()]) for i in range(len(pi))]
 
     def _compare_direct(self, ctx, res, inp, tags):
         lines = [self._direct_lines(inp, tau) for tau in (TAU, TAU * (1 + F(1, 2**20)), TAU * (1 - F(1, 2**20)))]
@@ -774,6 +829,9 @@ class C12(PropertyCheck):
         model = []
         body = o[3:]
         for i, ch in enumerate(body.split("!") if body else []):
+            if ch == "~":
+                model.append((i, None, None))
+                continue
             tl, cs = ch.split(":")
             model.append((i, pfl(tl), pfl(cs)))
         d = compare_channels(model, payload)
@@ -917,10 +975,12 @@ class C12(PropertyCheck):
                 chans = windows_of(case, ordered_instr(case, [F(x) for x in starts] if starts else None, perm))
             except Exception as e:
                 return False, "could not reconstruct the schedule: " + repr(e)
+            empty = sorted(lab for lab, ws in chans.items() if not ws)
+            chans = {lab: ws for lab, ws in chans.items() if ws}
             pre = all(precondition(ws) for ws in chans.values())
             if not pre:
                 return False, "precondition not met (overlapping / malformed / mixed-kind instructions on a channel)"
-            if not chans:
+            if not chans and not empty:
                 return False, "no control channel"
             if not w.get("full") and not all(sep_ok(ws, v) for ws in chans.values()):
                 # witnesses of recorded findings carry "full": true and are judged at full strength
@@ -930,8 +990,11 @@ class C12(PropertyCheck):
             if st != "ok":
                 return True, f"compile raised {payload} for a valid schedule"
             got = {lab: (tl, cf) for lab, tl, cf in payload}
-            if set(got) != set(chans):
-                return True, f"channels {sorted(got)} returned, {sorted(chans)} used"
+            if set(got) != set(chans) | set(empty):
+                return True, f"channels {sorted(got)} returned, {sorted(set(chans) | set(empty))} used"
+            for lab in empty:
+                if got[lab][0] is not None:
+                    return True, f"channel {lab} has only zero-duration instructions but is compiled to {got[lab][0]}"
             for lab, ws in chans.items():
                 d = check_channel(ws, *got[lab])
                 if d:
@@ -995,14 +1058,17 @@ class C12(PropertyCheck):
             p = LinearSpinChain(2)
             qc = QubitCircuit(2)
             qc.add_gate("RX", 0, arg_value=0.0)
+            qc.add_gate("RX", 1, arg_value=1.0)
             try:
                 tl, cf = p.load_circuit(qc)
                 for k in tl:
+                    if tl[k] is None and cf[k] is None:
+                        continue            # a channel without pulse
                     g = list(tl[k])
                     if any(g[i + 1] <= g[i] for i in range(len(g) - 1)):
                         return True, f"zero-duration instruction: grid of {k} is {g}, not strictly increasing"
                 p.get_full_coeffs()
-                lens = {k: (len(tl[k]), len(cf[k])) for k in tl}
+                lens = {k: (len(tl[k]), len(cf[k])) for k in tl if tl[k] is not None}
                 bad = [k for k, (a, b) in lens.items() if b != a - 1]
                 if bad:
                     return True, f"zero-duration instruction: grid/coefficient lengths {lens}"
@@ -1039,6 +1105,7 @@ class C12(PropertyCheck):
                 chans = windows_of(case, ordered_instr(case, [F(x) for x in starts] if starts else None, perm))
             except Exception:
                 continue
+            chans = {lab: ws for lab, ws in chans.items() if ws}
             if not chans or not all(precondition(ws) for ws in chans.values()):
                 continue
             if only_sep and not (all(sep_ok(ws, v) for ws in chans.values()) and resolution_ok(chans)):
